@@ -19,7 +19,11 @@
  *            to three (thorough: four) operations on one descriptor;
  *   windows  buffers whose size, offset or size - offset straddle 2^7, 2^8,
  *            2^15, 2^16, 2^31 and 2^32, as real (lazily mapped) memory that
- *            ends in front of an inaccessible page.
+ *            ends in front of an inaccessible page;
+ *   in place the buffer decoder and the buffer-backed source with the result
+ *            object at every aligned position of the memory being decoded;
+ *   nested   sink encoders called from inside the driver of a sink that is
+ *            itself being encoded to (stacked sinks).
  *
  * All four type variants (u32, s32, u64, s64) are run on every value / string.
  * Signed values are handled as their two's complement bit pattern of the
@@ -269,14 +273,19 @@ judge_string(int t, const struct refdec *r, const struct dobs o[3])
             }
         return true;
     case V_ILLEGAL:
-        /* "rejected as illegal" is read as the illegal-sequence code.  Where the
-         * digits read so far also exceed the type's width two failure classes
-         * apply and the statement does not say which is reported first: any
-         * refusal is accepted there. */
+        /* "rejected as illegal": an error, and not the one that says "cut off,
+         * more octets needed" (-ENODATA, what a source reports at its end and
+         * what the buffer decoder answers at the end of the memory); the
+         * statement does not fix which code says "illegal".  Where the digits
+         * read so far also exceed the type's width two failure classes apply
+         * and the statement does not say which is reported first: any refusal
+         * is accepted there. */
         for (int d = 0; d < 3; ++d)
-            if (r->ill_overflow ? o[d].rc >= 0 : o[d].rc != -EILSEQ) {
-                mc_fail("C14/no-terminator-illegal", "%s: %zu octets without terminator, %s decoder returned %d (want -EILSEQ=%d)",
-                        TN[t], t_max(t), DN[d], o[d].rc, -EILSEQ);
+            if (o[d].rc >= 0 || (!r->ill_overflow && o[d].rc == -ENODATA)) {
+                mc_fail("C14/no-terminator-illegal",
+                        "%s: %zu octets without terminator, %s decoder returned %d (want an error other than the cut-off code "
+                        "-ENODATA=%d)",
+                        TN[t], t_max(t), DN[d], o[d].rc, -ENODATA);
                 return false;
             }
         return true;
@@ -1236,8 +1245,13 @@ family_sinkscripts(void)
  * are accepted, whichever the implementation follows, call by call:
  *   (at-cursor) the form is written at the read cursor and the fill mark is set
  *               to its end, so that the unread part [offset, used) is the form;
- *   (appended)  the form is appended at the fill mark, which moves behind it.
- * Both coincide when offset == used (fresh descriptors, "decode what was there,
+ *   (appended)  the form is appended at the fill mark, which moves behind it;
+ *   (at-cursor, mark kept) the form is written at the read cursor and the fill
+ *               mark is never moved backwards (used = max(used, offset + len)).
+ * A refusal is admissible whenever offset != used (the statement says nothing
+ * about descriptors with unread data), and whenever less than the documented
+ * maximum is free.
+ * All coincide when offset == used (fresh descriptors, "decode what was there,
  * encode the next").  A form of the right length somewhere, with a fill mark
  * that delimits something else, is neither.
  * Returns 1: encoded (at_cursor tells which reading), 0: refused admissibly,
@@ -1259,25 +1273,36 @@ encode_step(int t, ByteBuffer *b, unsigned char *mem, size_t size, uint64_t bits
         return -1;
     }
     if (erc < 0) {
-        if (size - u >= maxoct) {
+        /* The statement's encoding sentence is about producing the form; it has
+         * no sentence about descriptors that hold unread data (offset != used):
+         * an encoder that refuses those is admissible.  Success is demanded
+         * only where both readings coincide (offset == used) and the documented
+         * maximum is free behind the fill mark. */
+        if (o == u && size - u >= maxoct) {
             mc_fail("C14/encode-minimal-reuse",
-                    "%s: encoding 0x%llx refused with %d although %zu octets (the documented maximum is %zu) are free behind "
-                    "the fill mark (size=%zu used=%zu offset=%zu)",
+                    "%s: encoding 0x%llx refused with %d although the descriptor holds nothing unread and %zu octets (the "
+                    "documented maximum is %zu) are free behind the fill mark (size=%zu used=%zu offset=%zu)",
                     TN[t], (unsigned long long)bits, erc, size - u, maxoct, size, u, o);
             return -1;
         }
         return 0;
     }
-    const bool a_ok = b->used == o + len && o + len <= size && memcmp(mem + o, want, len) == 0;
+    /* (at-cursor) fill mark set to the form's end; (appended) at the old fill
+     * mark; (at-cursor, mark kept) written at the read cursor, the fill mark
+     * only ever moves forwards: used == max(old used, offset + len) */
+    const bool at_o = o + len <= size && memcmp(mem + o, want, len) == 0;
+    const bool a_ok = at_o && b->used == o + len;
     const bool b_ok = b->used == u + len && u + len <= size && memcmp(mem + u, want, len) == 0;
-    if ((size_t)erc != len || b->offset != o || !(a_ok || b_ok)) {
+    const bool c_ok = at_o && b->used == (u > o + len ? u : o + len);
+    if ((size_t)erc != len || b->offset != o || !(a_ok || b_ok || c_ok)) {
         mc_fail("C14/encode-minimal-reuse",
                 "%s: encoding 0x%llx (minimal form: %zu octets) on size=%zu used=%zu offset=%zu: rc=%d used=%zu offset=%zu; "
-                "the fill mark delimits neither the form written at the read cursor nor the form appended at the old fill mark",
+                "the form is neither at the read cursor (fill mark at its end, or kept where it was when that is further on) "
+                "nor appended at the old fill mark",
                 TN[t], (unsigned long long)bits, len, size, u, o, erc, b->used, b->offset);
         return -1;
     }
-    *at_cursor = a_ok;
+    *at_cursor = a_ok || c_ok;
     return 1;
 }
 
@@ -1439,6 +1464,235 @@ family_histories(void)
                                                                          : "history-single");
                 }
             }
+    }
+}
+
+/* ---- decoding in place: the result object lives inside the buffer's memory ------------------- */
+
+/* The decoders take a plain pointer for the result (no restrict, no sentence in
+ * the header about where it may point): a caller that unpacks a record in place
+ * hands in a result object inside the memory that is being decoded.  The round
+ * trip sentence ("decoding it returns the same value and consumes exactly those
+ * octets") is checked for every placement of an aligned result object against
+ * the encoding: disjoint, over its head, over its tail, inside it.  Only
+ * canonical encodings are used; nothing is demanded of the buffer's content
+ * afterwards. */
+static inline int
+lib_decode_at(int t, ByteBuffer *b, void *res)
+{
+    switch (t) {
+    case T_U32: return varint_decode_u32(b, res);
+    case T_S32: return varint_decode_s32(b, res);
+    case T_U64: return varint_decode_u64(b, res);
+    default: return varint_decode_s64(b, res);
+    }
+}
+
+static inline int
+lib_from_source_at(int t, Source *s, void *res)
+{
+    switch (t) {
+    case T_U32: return varint_u32_from_source(s, res);
+    case T_S32: return varint_s32_from_source(s, res);
+    case T_U64: return varint_u64_from_source(s, res);
+    default: return varint_s64_from_source(s, res);
+    }
+}
+
+static const uint64_t IV32[] = { 0, 1, 0x7f, 0x80, 1234, 0x3fff, 0x4000, 0x1fffff, 0x200000, 0xfffffff, 0x10000000,
+                                 0x80000000ull, 0xffffffffull };
+static const uint64_t IV64[] = { 0, 1, 0x7f, 0x80, 1234, 0x3fff, 0x4000, 0x1fffff, 0x200000, 0xfffffff, 0x10000000,
+                                 0x80000000ull, 0xffffffffull, (1ull << 35) - 1, 1ull << 35, (1ull << 42) - 1, 1ull << 42,
+                                 (1ull << 49) - 1, 1ull << 49, (1ull << 56) - 1, 1ull << 56, 0x0123456789abcdefull,
+                                 (1ull << 63) - 1, 1ull << 63, ~0ull };
+
+static void
+family_inplace(void)
+{
+    for (int t = 0; t < NTYPES; ++t) {
+        const bool w32 = t < T_U64;
+        const size_t w = w32 ? 4 : 8, tot = 3 * w + (w32 ? 4 : 0); /* 16 resp. 24 octets */
+        const uint64_t *vals = w32 ? IV32 : IV64;
+        const size_t nvals = w32 ? sizeof IV32 / sizeof *IV32 : sizeof IV64 / sizeof *IV64;
+        for (int d = 0; d < 3; d += 2) /* buffer decoder, buffer-backed source */
+            for (size_t vi = 0; vi < nvals; ++vi) {
+                unsigned char want[10];
+                const size_t len = ref_enc(vals[vi], want);
+                for (size_t pre = 0; pre + len <= tot; ++pre)
+                    for (size_t rp = 0; rp + w <= tot; rp += w) {
+                        if (!mc_case("inplace %s %s decoder: block of %zu octets, encoding of 0x%llx (%zu octets) at %zu, "
+                                     "result object at %zu",
+                                     TN[t], DN[d], tot, (unsigned long long)vals[vi], len, pre, rp))
+                            continue;
+                        unsigned char *blk = mc_exact(tot);
+                        if ((uintptr_t)blk % 8u != 0)
+                            mc_broken("heap block not aligned for a 64-bit result object");
+                        stale_fill(blk, tot);
+                        memcpy(blk + pre, want, len);
+                        ByteBuffer b;
+                        if (byte_buffer_set(&b, blk, tot, tot, pre) < 0)
+                            mc_broken("byte_buffer_set refused");
+                        int rc;
+                        if (d == 0) {
+                            rc = lib_decode_at(t, &b, blk + rp);
+                        } else {
+                            Source src;
+                            source_from_buffer(&src, &b);
+                            rc = lib_from_source_at(t, &src, blk + rp);
+                        }
+                        mc_trans(1);
+                        uint64_t got = 0;
+                        if (w32) {
+                            uint32_t g32;
+                            memcpy(&g32, blk + rp, 4);
+                            got = g32;
+                        } else {
+                            memcpy(&got, blk + rp, 8);
+                        }
+                        const size_t consumed = b.offset - pre;
+                        mc_log("rc=%d value=0x%llx consumed=%zu", rc, rc >= 0 ? (unsigned long long)got : 0ull, consumed);
+                        if (rc < 0 || (size_t)rc != len || got != vals[vi] || consumed != len)
+                            mc_fail(d == 0 ? "C14/roundtrip-buffer" : "C14/roundtrip-source",
+                                    "%s: %s decoder on the %zu-octet encoding of 0x%llx at octet %zu of a %zu-octet buffer, result "
+                                    "stored at octet %zu of the same memory: rc=%d value=0x%llx consumed=%zu",
+                                    TN[t], DN[d], len, (unsigned long long)vals[vi], pre, tot, rp, rc,
+                                    rc >= 0 ? (unsigned long long)got : 0ull, consumed);
+                        free(blk);
+                        const bool overlap = rp < pre + len && pre < rp + w;
+                        mc_end(overlap && len >= 2, overlap ? "inplace-overlapping" : "inplace-disjoint");
+                    }
+            }
+    }
+}
+
+/* ---- sinks that encode while they are being written to ---------------------------------------- */
+
+/* A stacked sink (record framing, tee, sequence numbering): while its driver
+ * holds the chunk it was handed and before it stores it, it encodes a varint of
+ * its own to a sink below.  Both calls are encodings in the statement's sense:
+ * each has to deliver the minimal form of its value. */
+struct nsink {
+    int t_in;
+    uint64_t v_in;
+    bool v_is_len;       /* the inner value is the length of the chunk in hand */
+    unsigned char got[32];
+    size_t n;
+    unsigned char in[160];
+    size_t in_n;
+    Sink inner;
+    unsigned calls;
+    bool inner_bad;
+    int inner_rc;
+    uint64_t inner_v;
+};
+
+static ssize_t
+nsink_inner_put(void *drv, const void *p, size_t n)
+{
+    struct nsink *s = drv;
+    for (size_t i = 0; i < n; ++i) {
+        if (s->in_n < sizeof s->in)
+            s->in[s->in_n] = ((const unsigned char *)p)[i];
+        s->in_n++;
+    }
+    return (ssize_t)n;
+}
+
+static void
+nsink_nested(struct nsink *s, size_t chunk_len)
+{
+    const uint64_t v = s->v_is_len ? (uint64_t)chunk_len : s->v_in;
+    unsigned char want[10];
+    const size_t len = ref_enc(v, want);
+    const size_t n0 = s->in_n;
+    const int rc = lib_to_sink(s->t_in, &s->inner, v);
+    mc_trans(1);
+    if (!s->inner_bad
+        && (rc < 0 || s->in_n - n0 != len || s->in_n > sizeof s->in || memcmp(s->in + n0, want, len) != 0)) {
+        s->inner_bad = true;
+        s->inner_rc = rc;
+        s->inner_v = v;
+    }
+}
+
+static ssize_t
+nsink_put_chunk(void *drv, const void *p, size_t n)
+{
+    struct nsink *s = drv;
+    s->calls++;
+    nsink_nested(s, n);
+    for (size_t i = 0; i < n; ++i) {
+        if (s->n < sizeof s->got)
+            s->got[s->n] = ((const unsigned char *)p)[i];
+        s->n++;
+    }
+    return (ssize_t)n;
+}
+
+static int
+nsink_put_octet(void *drv, unsigned char c)
+{
+    struct nsink *s = drv;
+    s->calls++;
+    nsink_nested(s, 1);
+    if (s->n < sizeof s->got)
+        s->got[s->n] = c;
+    s->n++;
+    return 1;
+}
+
+static void
+family_nested_sinks(void)
+{
+    static const uint64_t V32[] = { 0, 0x7f, 0x80, 1234, 0x1ffff, 0x0fffffff, 0x80000000ull, 0xffffffffull };
+    static const uint64_t V64[] = { 0, 0x7f, 0x80, 1234, 0x1ffff, 0x123456789abcull, 0x7fffffffffffffffull,
+                                    0x8000000000000000ull, ~0ull };
+    static const uint64_t INNER[5] = { 0 /* the chunk's length */, 0, 0x7f, 1234, ~0ull };
+    for (int t = 0; t < NTYPES; ++t) {
+        const bool w32 = t < T_U64;
+        const uint64_t *vals = w32 ? V32 : V64;
+        const size_t nvals = w32 ? sizeof V32 / sizeof *V32 : sizeof V64 / sizeof *V64;
+        for (int ti = 0; ti < NTYPES; ++ti)
+            for (int octet = 0; octet < 2; ++octet)
+                for (size_t vi = 0; vi < nvals; ++vi)
+                    for (unsigned ii = 0; ii < 5; ++ii) {
+                        const uint64_t vin = INNER[ii] & t_mask(ti);
+                        if (!mc_case("nested %s 0x%llx to a %s sink whose driver, before it stores what it is handed, encodes %s "
+                                     "0x%llx%s to a sink below",
+                                     TN[t], (unsigned long long)vals[vi], octet ? "octet" : "chunk", TN[ti],
+                                     (unsigned long long)vin, ii == 0 ? " (the length of the chunk in hand instead)" : ""))
+                            continue;
+                        struct nsink s;
+                        memset(&s, 0, sizeof s);
+                        s.t_in = ti;
+                        s.v_in = vin;
+                        s.v_is_len = ii == 0;
+                        chunk_sink_init(&s.inner, nsink_inner_put, &s);
+                        Sink outer;
+                        if (octet)
+                            octet_sink_init(&outer, nsink_put_octet, &s);
+                        else
+                            chunk_sink_init(&outer, nsink_put_chunk, &s);
+                        unsigned char want[10];
+                        const size_t len = ref_enc(vals[vi], want);
+                        const int rc = lib_to_sink(t, &outer, vals[vi]);
+                        mc_trans(1);
+                        mc_log("outer rc=%d, %zu octets in %u driver calls; %zu octets reached the sink below", rc, s.n, s.calls,
+                               s.in_n);
+                        mc_log_hex("  outer sink stored", s.got, s.n <= sizeof s.got ? s.n : sizeof s.got);
+                        mc_log_hex("  minimal form", want, len);
+                        if (s.inner_bad)
+                            mc_fail("C14/encode-minimal-sink",
+                                    "%s: encoding 0x%llx to a sink from inside the driver of a sink that is being encoded to: rc=%d, "
+                                    "not the minimal form",
+                                    TN[ti], (unsigned long long)s.inner_v, s.inner_rc);
+                        else if (rc < 0 || s.n != len || memcmp(s.got, want, len) != 0)
+                            mc_fail("C14/encode-minimal-sink",
+                                    "%s: encoding 0x%llx to a sink whose driver encodes a varint of its own to another sink before "
+                                    "it stores what it was handed: rc=%d, %zu octets stored that %s the minimal form of %zu octets",
+                                    TN[t], (unsigned long long)vals[vi], rc, s.n, s.n == len ? "differ from" : "are not", len);
+                        mc_end(len >= 2, octet ? "nested-octet-sink" : "nested-chunk-sink");
+                    }
     }
 }
 
@@ -1693,7 +1947,11 @@ main(int argc, char **argv)
     family_sinkscripts();
     family_srcscripts();
 
-    char bound[1800];
+    /* 7. result objects inside the buffer; sinks that encode while written to */
+    family_inplace();
+    family_nested_sinks();
+
+    char bound[2400];
     snprintf(bound, sizeof bound,
              "32 bit: %s, plus the structured set (x<<s and ~(x<<s) for x<256, 2^k and 2^k+-1, one/two/all septet lanes "
              "over {00,01,40,7f}, octet lanes over {00,01,7f,80,ff}); 64 bit: the structured set%s; decoder input: "
@@ -1706,7 +1964,10 @@ main(int argc, char **argv)
              "decoders (octet and chunk source, 13/14 strings per width) and sink encoders (octet sink, chunk sink taking all/1/2/3 "
              "per call, 8/9 values per width) with every placement of up to %u answers from {0,-EINTR,-EAGAIN,-EIO} among the "
              "driver calls of one varint, up to %u among those of every stream of 2 and 3 varints over {1 octet, 2 octets, "
-             "maximum} through one Source/Sink",
+             "maximum} through one Source/Sink; in place: buffer decoder and buffer-backed source on the encodings of 13/25 "
+             "values per width at every position of a 16/24-octet buffer with the result object at every aligned position of "
+             "the same memory; nested: 8/9 values per type to an octet/chunk sink whose driver encodes {chunk length,0,7f,1234,"
+             "max} of every type to a sink below before it stores what it was handed",
              mc_thorough() ? "all 2^32 values" : "all values < 2^17",
              mc_thorough() ? " plus odd*2^s and complements for every odd < 2^16 and every s" : "", maxlen,
              mc_thorough() ? "" : " and of length 9..11 over {00,7f,80}", mc_thorough() ? 4u : 3u, mc_thorough() ? 3u : 2u,
